@@ -268,8 +268,10 @@ def run_main(argv, cwd=None, home=None):
     return o
 
 
-def run_cli(argv, cwd=None, home=None, env_extra=None, timeout=120):
-    """Fresh interpreter running the working tree's command line entry point."""
+def run_cli(argv, cwd=None, home=None, env_extra=None, timeout=120, entry="console"):
+    """Fresh interpreter running the working tree's command line entry point: entry="console" is what the installed
+    console script does (cminx:main), entry="main.py" runs <repo>/src/main.py, the script the CMake build freezes into the
+    `cminx` executable that cminx_gen_rst() calls."""
     env = {k: v for k, v in os.environ.items() if k not in ("XDG_CONFIG_HOME", "CMINXDIR")}
     env["PYTHONPATH"] = os.path.join(repo_root(), "src")
     env["PYTHONWARNINGS"] = "ignore"
@@ -278,8 +280,9 @@ def run_cli(argv, cwd=None, home=None, env_extra=None, timeout=120):
         env["HOME"] = home
         env["XDG_CONFIG_DIRS"] = os.path.join(home, "no-such-xdg")
     env.update(env_extra or {})
-    p = subprocess.run([PY, "-c", "import sys; from cminx import main; main(sys.argv[1:])"] + list(argv),
-                       cwd=cwd, env=env, capture_output=True, timeout=timeout)
+    how = [PY, "-c", "import sys; from cminx import main; main(sys.argv[1:])"] if entry == "console" else \
+        [PY, os.path.join(repo_root(), "src", "main.py")]
+    p = subprocess.run(how + list(argv), cwd=cwd, env=env, capture_output=True, timeout=timeout)
     return p.returncode, p.stdout.decode("utf-8", "replace"), p.stderr.decode("utf-8", "replace")
 
 
